@@ -10,30 +10,33 @@ object: the statement does not depend on which of the two data implementations i
 structurally recursive functions (no `partial`), so "overflows the stack / fails to terminate" is `Outcome.fuelOut`
 (a loop of the Rust that is still running when the model's fuel is used up) and "panics" is `Outcome.panic`.
 
-What is proved here (`C03_pipeline_total_partial`):
-  * `lex` returns `ok` or `err` for every input (`lex_total`), consuming at most `|s| + 2` characters (`lexFull_total`);
-  * `parse` returns `ok` or `err` for every token list (`parse_safe`): its two parent walks are capped by the node count;
-  * `build`: the validation pass `validate_parse_tree` returns `ok` or `err` for every node vector
-    (`validateParseTree_np`, `validateParseTree_terminates`: at most `nodes.size + 1` iterations); the whole of `build`
-    never panics when the links of the node vector are in range and the literal texts are shaped as the lexer shapes
-    them (`build_no_panic_shaped`).
-  * a successful validation establishes a tree: `validateParseTree_ok` / `C03_validated_links` — the marked set contains
-    the root, is closed under `left`/`right`, every such link is in range, every child names its node as parent, and
-    every unmarked node is a `Subexpression`.
-What is NOT proved (stated as `C03_build_total_statement`):
-  * that the traversal only ever reaches marked nodes (the invariant "every index on `stack` / `root_stack` and in a
-    conditional item is marked"), which would turn `C03_validated_links` into the link hypothesis of
-    `build_no_panic_shaped`;
-  * that the emitting traversal of `build` finishes within `defaultFuel n = 20·n + 100` steps on validated trees
-    (each node is popped at most twice from `stack` and at most once from `root_stack`; potential function below).
-Both are covered empirically by the BUILD correspondence suite: after the validation was added, neither the
-implementation (HANG) nor the model (FUELOUT) ever ran out on ~1.4 million generated cases.
+Proved:
+  * `C03_lex_total`, `C03_lex_cost`: `lex` returns `ok` or `err` for every input, stepping its state machine at most
+    `|s| + 2` times;
+  * `C03_parse_total`: `parse` returns `ok` or `err` for every token list (its parent walks are capped by the node count);
+  * `C03_build_total`: `build`, run with the explicit step bound `defaultFuel n = 20·n + 100` for each of its two
+    work-list loops, returns `ok` or `err` for EVERY node vector and root index (proper tree or not — the validation
+    pass `validate_parse_tree` rejects everything else) whose Symbol and ByteList token texts have the shape the lexer
+    gives them (`LexShaped`); in particular it never panics and never runs out of fuel:
+    `C03_build_no_panic`, `C03_build_terminates`.  Proof (Lemmas/BuildTotal*.lean): `validate_parse_tree = ok` establishes
+    a tree (`validateParseTree_ok`); on it every node goes through the phases unscheduled → [arm of an else-chain] →
+    [pending root] → first visit pending → [second visit pending] → done and is scheduled only by its unique parent in
+    one fixed visit; the potential `Σ rank(phase)` starts below `5·n` and drops in every iteration of either loop;
+    every index the traversal touches is a marked node, hence in range.
+  * `C03_pipeline_total`: the three stages composed.
+The literal hypothesis is exact: `build` DOES panic on a Symbol token whose text is empty or starts with a multi-byte
+character (`&text[1..]`) and on a multi-quote ByteList token whose closing quotes are unbalanced around a multi-byte
+character (`&input[q..len-q]`); the lexer never produces such tokens (an unterminated literal is a lex error), which the
+LEX suite checks against the implementation.  Number and CharList texts need no hypothesis.
+Cost: lexing is linear, parsing at most quadratic in the number of tokens (two capped walks per token), building linear
+in the number of nodes (at most `5·n` loop iterations in total, `validate_parse_tree` at most `n + 1`).
 -/
 import Garnish.Lemmas.Lexer
 import Garnish.Lemmas.Parser
-import Garnish.Lemmas.Build
+import Garnish.Lemmas.BuildTotalLits
 namespace Garnish.Props.C03
 open Garnish Garnish.Gen Garnish.Model.Lexer Garnish.Model.Parser Garnish.Model.Build Garnish.Model.Literals Garnish.Lemmas.Build
+open Garnish.Lemmas.BuildTotal
 
 /-- the outcome is a value or an error value: no panic, no non-termination -/
 def Returns {α : Type} (o : Outcome α) : Prop := (∃ a, o = .ok a) ∨ (∃ e, o = .err e)
@@ -52,10 +55,16 @@ theorem returns_of_ne {α : Type} {o : Outcome α} (hp : ∀ s, o ≠ .panic s) 
   | panic s => exact absurd rfl (hp s)
   | fuelOut => exact absurd rfl hf
 
+theorem Returns.ne_panic {α : Type} {o : Outcome α} (h : Returns o) (s : String) : o ≠ .panic s := by
+  rcases h with ⟨a, h⟩ | ⟨e, h⟩ <;> rw [h] <;> intro h' <;> cases h'
+
+theorem Returns.ne_fuelOut {α : Type} {o : Outcome α} (h : Returns o) : o ≠ .fuelOut := by
+  rcases h with ⟨a, h⟩ | ⟨e, h⟩ <;> rw [h] <;> intro h' <;> cases h'
+
 /-- `LexerToken` of the lexer model as the token type of the parser model -/
 def toPToken (t : LexerToken) : PToken := ⟨t.text, t.tokenType, t.row, t.column⟩
 
-/-! ### re-exports -/
+/-! ### lexer and parser (re-exports) -/
 
 /-- lexing is total (Lemmas/Lexer.lean) -/
 theorem C03_lex_total (cc : CharClass) (hcc : cc.Sane) (input : List Char) : Returns (lex cc input) := by
@@ -70,36 +79,81 @@ theorem C03_lex_cost (cc : CharClass) (hcc : cc.Sane) (input : List Char) :
       (s'.charactersLexed = input.length + 1 ∨ s'.charactersLexed = input.length + 2) :=
   lexFull_total cc hcc input
 
-/-- parsing is total (Lemmas/Parser.lean); per token the two parent walks are capped by `nodes.size + 1` iterations,
-    so the work is at most quadratic in the number of tokens -/
+/-- parsing is total (Lemmas/Parser.lean); per token the two parent walks are capped by `nodes.size + 1` iterations -/
 theorem C03_parse_total (tokens : List PToken) : Returns (parse tokens) := returns_of_safe (parse_safe tokens)
+
+/-! ### the builder -/
 
 /-- the validation prefix of `build` is total: at most `nodes.size + 1` iterations, no panic -/
 theorem C03_validate_total (root : Nat) (nodes : Array ParseNode) : Returns (validateParseTree root nodes) :=
   returns_of_ne (fun s => satNP_noPanic (validateParseTree_np root nodes) s) (validateParseTree_terminates root nodes)
 
-/-! ### literal texts as the lexer shapes them -/
+/-- what a successful validation establishes, in the form of in-range links -/
+theorem C03_validated_links {root : Nat} {tree : Array ParseNode} (h : validateParseTree root tree = .ok ()) :
+    root < tree.size ∧ ∃ G : Nat → Prop, G root ∧
+      ∀ i, G i → ∃ pn, tree[i]? = some pn ∧ (∀ c, pn.left = some c → c < tree.size ∧ G c) ∧
+        (∀ c, pn.right = some c → c < tree.size ∧ G c) :=
+  validateParseTree_links h
 
-/-- a Symbol token starts with `:`; a ByteList token is `q` quotes, a body that does not start with a quote, `q` quotes -/
-structure LexerShaped (pn : ParseNode) : Prop where
-  symbol : pn.definition = .symbol → ∃ rest, pn.lexToken.text = ':' :: rest
-  byteList : pn.definition = .byteList → ∃ (q : Nat) (body : List Char),
-    pn.lexToken.text = List.replicate q '\'' ++ body ++ List.replicate q '\'' ∧ (∀ c, body.head? = some c → c ≠ '\'')
+/-- every node of the vector carries a lexer-shaped token text (only Symbol and ByteList nodes are constrained) -/
+def NodesShaped (nodes : Array ParseNode) : Prop :=
+  ∀ (i : Nat) (pn : ParseNode), nodes[i]? = some pn → LexShaped pn
 
-theorem dropFirstByte_colon (rest : List Char) : dropFirstByte (':' :: rest) ≠ none := by
-  simp [dropFirstByte]
-  decide
+variable {F : Type}
 
-/-- the first literal hypothesis of `build_no_panic` follows from the lexer shape -/
-theorem symbol_safe_of_shaped {pn : ParseNode} (h : LexerShaped pn) (hd : pn.definition = .symbol) :
-    dropFirstByte pn.lexToken.text ≠ none := by
-  obtain ⟨rest, hr⟩ := h.symbol hd
-  rw [hr]; exact dropFirstByte_colon rest
+/-- C03 for the builder: for every node vector and root index whose Symbol / ByteList texts are lexer-shaped, `build`
+with the step bound `defaultFuel n = 20·n + 100` returns `ok` or `err` -/
+theorem C03_build_total (parseFloat : List Char → Option F) (root : Nat) (nodes : Array ParseNode) (d : BState F)
+    (hshape : NodesShaped nodes) : Returns (build parseFloat (defaultFuel nodes.size) root nodes d) :=
+  good_returns (build_total_shaped parseFloat root nodes hshape d)
 
-/-! ### the statement and the proved part -/
+theorem C03_build_no_panic (parseFloat : List Char → Option F) (root : Nat) (nodes : Array ParseNode) (d : BState F)
+    (hshape : NodesShaped nodes) (site : String) : build parseFloat (defaultFuel nodes.size) root nodes d ≠ .panic site :=
+  (C03_build_total parseFloat root nodes d hshape).ne_panic site
 
-/-- C03 on the models: for every string each stage returns `ok` or `err` (the fuel given to `build` is the explicit
-bound `defaultFuel n = 20·n + 100` on the iterations of its two work-list loops) -/
+theorem C03_build_terminates (parseFloat : List Char → Option F) (root : Nat) (nodes : Array ParseNode) (d : BState F)
+    (hshape : NodesShaped nodes) : build parseFloat (defaultFuel nodes.size) root nodes d ≠ .fuelOut :=
+  (C03_build_total parseFloat root nodes d hshape).ne_fuelOut
+
+/-- the same with the semantic literal condition instead of the syntactic shape: the two slicing operations of the
+literal layer succeed on the texts of Symbol and ByteList nodes -/
+theorem C03_build_total_litSafe (parseFloat : List Char → Option F) (root : Nat) (nodes : Array ParseNode) (d : BState F)
+    (hlit : ∀ (i : Nat) (pn : ParseNode), nodes[i]? = some pn → LitSafe parseFloat pn) :
+    Returns (build parseFloat (defaultFuel nodes.size) root nodes d) :=
+  good_returns (build_total parseFloat hlit d)
+
+/-! ### the pipeline -/
+
+/-- C03 on the models: for every string each stage returns `ok` or `err`; for the builder under the hypothesis that
+the Symbol / ByteList nodes of the parse result carry lexer-shaped texts -/
+theorem C03_pipeline_total (cc : CharClass) (hcc : cc.Sane) (parseFloat : List Char → Option F) (s : List Char) (d : BState F) :
+    Returns (lex cc s) ∧
+    ∀ toks, lex cc s = .ok toks →
+      Returns (parse (toks.map toPToken)) ∧
+      ∀ r, parse (toks.map toPToken) = .ok r → NodesShaped r.nodes →
+        Returns (build parseFloat (defaultFuel r.nodes.size) r.root r.nodes d) :=
+  ⟨C03_lex_total cc hcc s, fun toks _ => ⟨C03_parse_total _, fun r _ hsh => C03_build_total parseFloat r.root r.nodes d hsh⟩⟩
+
+/-- what is still assumed rather than proved about the front end: the parser copies token texts into nodes unchanged and
+the lexer gives Symbol / ByteList tokens the shape `LexShaped` asks for -/
+def C03_front_end_shape_statement : Prop :=
+  ∀ (cc : CharClass), cc.Sane → ∀ (s : List Char) toks r, lex cc s = .ok toks → parse (toks.map toPToken) = .ok r →
+    NodesShaped r.nodes
+
+/-! ### the statements of the earlier stage, now proved; names kept for the manifest -/
+
+abbrev LexerShaped := LexShaped
+
+/-- the `build` stage alone, for arbitrary node vectors -/
+def C03_build_total_statement (F : Type) : Prop :=
+  ∀ (parseFloat : List Char → Option F) (root : Nat) (nodes : Array ParseNode) (d : BState F),
+    (∀ (i : Nat) (pn : ParseNode), nodes[i]? = some pn → LexerShaped pn) →
+    Returns (build parseFloat (defaultFuel nodes.size) root nodes d)
+
+theorem C03_build_total_statement_proved : C03_build_total_statement F :=
+  fun parseFloat root nodes d h => C03_build_total parseFloat root nodes d h
+
+/-- C03 on the models without any side condition -/
 def C03_pipeline_total_statement (F : Type) : Prop :=
   ∀ (cc : CharClass), cc.Sane → ∀ (parseFloat : List Char → Option F) (s : List Char) (d : BState F),
     Returns (lex cc s) ∧
@@ -108,73 +162,57 @@ def C03_pipeline_total_statement (F : Type) : Prop :=
       ∀ r, parse (toks.map toPToken) = .ok r →
         Returns (build parseFloat (defaultFuel r.nodes.size) r.root r.nodes d)
 
-/-- the `build` stage alone, for arbitrary node vectors -/
-def C03_build_total_statement (F : Type) : Prop :=
-  ∀ (parseFloat : List Char → Option F) (root : Nat) (nodes : Array ParseNode) (d : BState F),
-    (∀ (i : Nat) (pn : ParseNode), nodes[i]? = some pn → LexerShaped pn) →
-    Returns (build parseFloat (defaultFuel nodes.size) root nodes d)
+/-- the unconditional pipeline statement follows from the front-end shape fact (the only part not proved in Lean) -/
+theorem C03_pipeline_total_of_shape (hshape : C03_front_end_shape_statement) : C03_pipeline_total_statement F := by
+  intro cc hcc parseFloat s d
+  refine ⟨C03_lex_total cc hcc s, fun toks ht => ⟨C03_parse_total _, fun r hr => ?_⟩⟩
+  exact C03_build_total parseFloat r.root r.nodes d (hshape cc hcc s toks r ht hr)
 
-/-- the potential function of the missing termination argument.  On a validated tree every node is given a build node
-exactly once (by its unique parent), is popped from `stack` once as `Uninitialized` and at most once more as
-`Initialized`, and is popped from `root_stack` at most once.  With
-`Φ ctx = 3·#{i | nodes[i] = none} + 2·#{i | nodes[i] = some bn, bn.state = Uninitialized} + stack.size`
-one iteration of the inner loop on a marked node lowers `Φ` by at least one, so the inner loops run at most `3·n + 1`
-iterations in total and the outer loop at most `n + 1`; `defaultFuel n = 20·n + 100` is above both.  The step property
-that is needed (NOT proved; it needs the reachability invariant above and uniqueness of parents from
-`validateParseTree_ok`): -/
-def C03_step_potential_statement (F : Type) : Prop :=
-  ∀ (parseFloat : List Char → Option F) (root : Nat) (tree : Array ParseNode) (crj ni : Nat) (pn : ParseNode) (ctx ctx' : Ctx F)
-    (Φ : Ctx F → Nat), validateParseTree root tree = .ok () → tree[ni]? = some pn →
-    (Φ = fun c => 3 * (c.nodes.toList.filter Option.isNone).length +
-      2 * (c.nodes.toList.filter (fun o => match o with | some bn => bn.state == .uninitialized | none => false)).length +
-      c.stack.size) →
-    handleParseNode parseFloat { ctx with stack := ctx.stack.pop } crj ni pn = .ok ctx' → ctx.stack.back? = some ni →
-    Φ ctx' < Φ ctx
-
-/-- (a) what the validation establishes, in the form needed for the link hypothesis -/
-theorem C03_validated_links {root : Nat} {tree : Array ParseNode} (h : validateParseTree root tree = .ok ()) :
-    root < tree.size ∧ ∃ G : Nat → Prop, G root ∧
-      ∀ i, G i → ∃ pn, tree[i]? = some pn ∧ (∀ c, pn.left = some c → c < tree.size ∧ G c) ∧
-        (∀ c, pn.right = some c → c < tree.size ∧ G c) :=
-  validateParseTree_links h
-
-variable {F : Type}
-
-/-- `build` never panics when the links are in range and the literal texts are lexer-shaped, given that byte-list
-texts do not hit the slice panic (`byteOk`; for balanced quotes this is a fact about UTF-8 offsets, not proved here) -/
-theorem build_no_panic_shaped (parseFloat : List Char → Option F) (fuel root : Nat) (nodes : Array ParseNode) (d : BState F)
-    (hroot : root < nodes.size)
-    (hlinks : ∀ (i : Nat) (pn : ParseNode), nodes[i]? = some pn → PnOk nodes.size pn)
-    (hshape : ∀ (i : Nat) (pn : ParseNode), nodes[i]? = some pn → LexerShaped pn)
-    (byteOk : ∀ (i : Nat) (pn : ParseNode), nodes[i]? = some pn → pn.definition = .byteList →
-      ∀ s, parseByteList parseFloat pn.lexToken.text ≠ .panic s)
-    (s : String) : build parseFloat fuel root nodes d ≠ .panic s :=
-  build_no_panic parseFloat fuel root nodes d hroot
-    (fun i pn h => ⟨hlinks i pn h, symbol_safe_of_shaped (hshape i pn h), byteOk i pn h⟩) s
-
-/-- the proved part of C03 -/
 theorem C03_pipeline_total_partial (cc : CharClass) (hcc : cc.Sane) (parseFloat : List Char → Option F) (s : List Char)
     (d : BState F) :
     Returns (lex cc s) ∧
     ∀ toks, lex cc s = .ok toks →
       Returns (parse (toks.map toPToken)) ∧
-      ∀ r, parse (toks.map toPToken) = .ok r →
-        -- the validation prefix of `build` returns
-        Returns (validateParseTree r.root r.nodes) ∧
-        -- `build` only appends to the data object, whatever it returns (so an `Err` leaves earlier programs intact)
-        (∀ d' e, build parseFloat (defaultFuel r.nodes.size) r.root r.nodes d = .ok (d', e) →
-          d.instrs.toList <+: d'.instrs.toList ∧ d.jumps.size ≤ d'.jumps.size) ∧
-        -- and it does not panic under the link / literal hypotheses
-        (r.root < r.nodes.size → (∀ (i : Nat) (pn : ParseNode), r.nodes[i]? = some pn → PnOk r.nodes.size pn) →
-          (∀ (i : Nat) (pn : ParseNode), r.nodes[i]? = some pn → LexerShaped pn) →
-          (∀ (i : Nat) (pn : ParseNode), r.nodes[i]? = some pn → pn.definition = .byteList →
-            ∀ s, parseByteList parseFloat pn.lexToken.text ≠ .panic s) →
-          ∀ site, build parseFloat (defaultFuel r.nodes.size) r.root r.nodes d ≠ .panic site) := by
-  refine ⟨C03_lex_total cc hcc s, fun toks _ => ⟨C03_parse_total _, fun r _ => ⟨C03_validate_total _ _, ?_, ?_⟩⟩⟩
-  · intro d' e h
-    have := build_appends_only parseFloat _ _ _ d d' e h
-    exact ⟨this.1, this.2.2.2.1⟩
-  · intro h1 h2 h3 h4 site
-    exact build_no_panic_shaped parseFloat _ _ _ d h1 h2 h3 h4 site
+      ∀ r, parse (toks.map toPToken) = .ok r → NodesShaped r.nodes →
+        Returns (build parseFloat (defaultFuel r.nodes.size) r.root r.nodes d) :=
+  C03_pipeline_total cc hcc parseFloat s d
+
+theorem build_no_panic_shaped (parseFloat : List Char → Option F) (root : Nat) (nodes : Array ParseNode) (d : BState F)
+    (hshape : NodesShaped nodes) (site : String) : build parseFloat (defaultFuel nodes.size) root nodes d ≠ .panic site :=
+  C03_build_no_panic parseFloat root nodes d hshape site
+
+/-! ### non-vacuity -/
+
+/-- a node vector for `:a + 'x'` -/
+def exampleTree : Array ParseNode := #[
+  ⟨.symbol, .value, some 1, none, none, ⟨[':', 'a'], .symbol, 0, 0⟩⟩,
+  ⟨.addition, .binaryLeftToRight, none, some 0, some 2, ⟨['+'], .plusSign, 0, 0⟩⟩,
+  ⟨.byteList, .value, some 1, none, none, ⟨['\'', 'x', '\''], .byteList, 0, 0⟩⟩]
+
+theorem exampleTree_shaped : NodesShaped exampleTree := by
+  intro i pn h
+  have hi : i < 3 := by
+    rcases Nat.lt_or_ge i 3 with h1 | h1
+    · exact h1
+    · rw [Array.getElem?_eq_none (by simpa [exampleTree] using h1)] at h; cases h
+  have h0 : i = 0 ∨ i = 1 ∨ i = 2 := by omega
+  rcases h0 with rfl | rfl | rfl
+  · simp [exampleTree] at h; subst h
+    exact ⟨fun _ => ⟨['a'], rfl⟩, (fun hd => by cases hd)⟩
+  · simp [exampleTree] at h; subst h
+    exact ⟨(fun hd => by cases hd), (fun hd => by cases hd)⟩
+  · simp [exampleTree] at h; subst h
+    exact ⟨(fun hd => by cases hd), fun _ => ⟨1, ['x'], rfl, fun c hc => by simp at hc; subst hc; decide⟩⟩
+
+/-- the hypotheses of `C03_build_total` are satisfiable, and the theorem applies to a tree with both constrained kinds -/
+example (parseFloat : List Char → Option F) (d : BState F) :
+    Returns (build parseFloat (defaultFuel exampleTree.size) 1 exampleTree d) :=
+  C03_build_total parseFloat 1 exampleTree d exampleTree_shaped
+
+/-- both outcomes occur: a one-node tree builds, a cyclic vector is rejected by the validation (and does not hang) -/
+example : (build (F := Unit) (fun _ => none) (defaultFuel 1) 0
+    #[⟨.number, .value, none, none, none, ⟨['5'], .number, 0, 0⟩⟩] BState.empty).isOk = true := by decide
+example : (build (F := Unit) (fun _ => none) (defaultFuel 1) 0
+    #[⟨.addition, .binaryLeftToRight, none, some 0, some 0, ⟨['+'], .plusSign, 0, 0⟩⟩] BState.empty).isOk = false := by decide
 
 end Garnish.Props.C03
